@@ -1,0 +1,118 @@
+//! Observation hooks for external verification tooling.
+//!
+//! This module is only compiled when the crate is built with
+//! `--cfg smlxl_storage_layout_extractor_verif`. It holds a thread-local
+//! [`Monitor`] that, when installed, receives [`Event`]s from a small number
+//! of call sites in the virtual machine and the type checker. With no monitor
+//! installed every hook is a no-op, and with the cfg flag off none of this
+//! exists.
+//!
+//! The hooks only _observe_, with one exception: [`class_fold`] lets the
+//! monitor choose the order in which the evidence of one equivalence class is
+//! folded during unification. That order is otherwise the iteration order of a
+//! [`std::collections::HashSet`], so any order the monitor picks is one that
+//! the unmodified code may also pick.
+
+use std::{cell::RefCell, fmt::Debug};
+
+/// An observation made at one of the hook sites.
+#[derive(Clone, Debug)]
+pub enum Event {
+    /// The VM is about to execute the instruction at `ip` on the current
+    /// thread. `gas` is the gas consumed by the thread so far and `visits` is
+    /// the thread's visit count for `ip` including this visit.
+    Step { ip: u32, gas: usize, visits: usize },
+
+    /// Executing the instruction at `ip` returned an error. `recorded` says
+    /// whether the error was added to the VM's error buffer.
+    OpError { ip: u32, error: String, recorded: bool },
+
+    /// An opcode implementation stored an error directly in the VM's error
+    /// buffer (without failing the current thread).
+    StoredError { ip: u32, error: String },
+
+    /// The current thread was retired while positioned at `ip`.
+    Retire { ip: u32, at_limit: bool, out_of_gas: bool, killed: bool },
+
+    /// The current thread (positioned at `from`) was forked to `to`.
+    Fork { from: u32, to: u32 },
+
+    /// A watchdog-polled loop is starting iteration number `index`.
+    LoopIter { site: &'static str, index: usize },
+
+    /// A round of unification has completed.
+    Round { type_vars: usize, progress: bool },
+}
+
+/// The receiver of hook events.
+pub trait Monitor {
+    /// Called for every event.
+    fn event(&mut self, event: Event);
+
+    /// Called before the evidence of the equivalence class rooted at `root`
+    /// is folded. `evidence` holds the debug rendering of each piece of
+    /// evidence in the order in which it would be folded; returning a
+    /// permutation of `0..evidence.len()` re-orders the fold.
+    fn class_fold(&mut self, _root: usize, _evidence: &[String]) -> Option<Vec<usize>> {
+        None
+    }
+
+    /// Whether [`Monitor::class_fold`] wants to be called at all (rendering
+    /// the evidence is not free).
+    fn wants_class_fold(&self) -> bool {
+        false
+    }
+}
+
+thread_local! {
+    static MONITOR: RefCell<Option<Box<dyn Monitor>>> = const { RefCell::new(None) };
+}
+
+/// Installs `monitor` for the current thread, returning the previous one.
+pub fn install(monitor: Box<dyn Monitor>) -> Option<Box<dyn Monitor>> {
+    MONITOR.with(|m| m.borrow_mut().replace(monitor))
+}
+
+/// Removes and returns the current thread's monitor.
+pub fn uninstall() -> Option<Box<dyn Monitor>> {
+    MONITOR.with(|m| m.borrow_mut().take())
+}
+
+/// Sends `event` to the installed monitor, if any.
+pub fn emit(event: impl FnOnce() -> Event) {
+    MONITOR.with(|m| {
+        if let Ok(mut guard) = m.try_borrow_mut() {
+            if let Some(monitor) = guard.as_mut() {
+                monitor.event(event());
+            }
+        }
+    });
+}
+
+/// Lets the monitor observe, and optionally re-order, the evidence about to
+/// be folded for the class rooted at `root`.
+pub fn class_fold<T: Debug + Clone>(root: usize, items: &mut [T]) {
+    MONITOR.with(|m| {
+        if let Ok(mut guard) = m.try_borrow_mut() {
+            if let Some(monitor) = guard.as_mut() {
+                if !monitor.wants_class_fold() {
+                    return;
+                }
+                let rendered: Vec<String> = items.iter().map(|i| format!("{i:?}")).collect();
+                if let Some(order) = monitor.class_fold(root, &rendered) {
+                    let mut seen = vec![false; items.len()];
+                    let valid = order.len() == items.len()
+                        && order.iter().all(|&i| {
+                            i < seen.len() && !std::mem::replace(&mut seen[i], true)
+                        });
+                    if valid {
+                        let original: Vec<T> = items.to_vec();
+                        for (slot, &from) in items.iter_mut().zip(order.iter()) {
+                            *slot = original[from].clone();
+                        }
+                    }
+                }
+            }
+        }
+    });
+}
